@@ -485,8 +485,13 @@ class HttpProxyPlugin(HttpProtocolHandlerPlugin):
                             ),
                         ),
                     )
+                    remainder = self.pipeline_request.buffer
                     if not self.pipeline_request.is_connection_upgrade:
                         self.pipeline_request = None
+                    # Bytes following a complete request in the
+                    # same read belong to the next request.
+                    if remainder:
+                        self.on_client_data(remainder)
             # For scenarios where we cannot peek into the data,
             # simply queue for upstream server.
             else:
